@@ -47,6 +47,10 @@ def run(tier, replay=None):
     fc, fm, _, _ = C.emit_and_replay(run, "MC_DateZone", "MC_DateZone_fork.cfg", "c09_fork", ["datezone"], timeout=900, workers=4)
     for m in fm:
         run.mismatch({"kind": m["mismatch"]["what"], "input": m["mismatch"].get("pattern", "")}, m)
+    # ... the record's own fields (line 0 .. u32::MAX, absent file / module path, every level) under every kind of width spec
+    wc, wm, _, _ = C.emit_and_replay(run, "MC_FieldWidths", "MC_FieldWidths.cfg", "c09_fields", ["fieldwidths"], timeout=600, workers=2)
+    for m in wm:
+        run.mismatch({"kind": m["mismatch"]["what"], "input": m["mismatch"].get("pattern", "")}, m)
     # ... and time: successive encodes render strictly increasing instants, to the last digit of a fraction
     kc, km, _, _ = C.emit_and_replay(run, "MC_DateZone", "MC_DateZone_clock.cfg", "c09_clock", ["datezone"], timeout=900, workers=4)
     for m in km:
